@@ -4,8 +4,11 @@
    Vocabulary (Conc/SockReaderSpec.v):  parked s = extdata s ++ ibuf s  (bytes in the caller's buffer awaiting the
    wake-up, then the protocol's buffer);  received os / accepted ls os = the bytes of all receives that returned /
    of all read events, read off the observations. *)
-From EN Require Import Lib.Bytes Conc.SockReader Conc.SockReaderSpec Conc.BlockRecv Frame.Framer Stream.Consumer
-                       Proofs.C10_refute Proofs.C10_inv Proofs.C10_obs Proofs.C10_queue Proofs.C10_blocking.
+From EN Require Import Lib.Bytes
+                       Frame.Framer Frame.ReadUntil Stream.Consumer Stream.SpecDecode Stream.Endpoint Stream.EndpointSpec
+                       Conc.SockReader Conc.SockReaderSpec Conc.BlockRecv Conc.SockEndpoint
+                       Proofs.C10_refute Proofs.C10_inv Proofs.C10_obs Proofs.C10_queue Proofs.C10_blocking
+                       Proofs.C10_endpoint Proofs.C10_endpoint_inst.
 
 (* F4 (defect of the unchanged tree): recv_into(8); read event "hello"; task.cancel(); next iteration; wake-up
    (CancelledError); read event " world"; recv(64) returns " world" -- "hello" is gone, no error is reported. *)
@@ -87,6 +90,52 @@ Theorem later_receive_returns_next_bytes_race_free : forall ls k (into : bool),
   = [ONone; ONone; ORes (RBytes (firstn k (ibuf s)))].
 Proof. exact later_receive_returns_next_bytes_race_free_proof. Qed.
 Print Assumptions later_receive_returns_next_bytes_race_free.
+
+(* Endpoint corollary (Conc/SockEndpoint.v: the asynchronous receive loop of AsyncStreamEndpoint / the server request
+   receivers composed with the repaired protocol).  For ANY consumer [S] (next(None) / size to read / next(bytes)) that
+   satisfies the C03/C15 interface [consumer_ok_rel] for a frame-by-frame decoding [spec] (independent of how the bytes
+   are cut) and keeps a drained consumer drained when asked for its write buffer, and for EVERY sequence of
+   recv_packet() calls, read events, EOF, connection loss, cancellation requests, wake-ups and loop iterations:
+   the packets and parse errors handed out so far, in order, are a prefix of spec(everything delivered) -- so whatever
+   was cancelled, the j-th event ever received is the j-th frame of the stream; the consumer has been fed exactly the
+   bytes the transport returned; and those plus the parked bytes are the delivered stream (tail only with an error). *)
+Theorem recv_packet_no_loss :
+  forall (P C : Type) (S : smachine P C) (into : bool) (spec : bytes -> list (nres P)) (G : bytes -> Prop)
+         (R : C -> bytes -> nat -> Prop) (D : C -> bytes -> Prop),
+    consumer_ok_rel (to_machine S) spec G R D ->
+    (forall c d c1 room, D c d -> sroom S c = Some (c1, room) -> D c1 d) ->
+    forall (c0 : C) (ls : list elabel),
+      R c0 [] 0 ->
+      let es := erun S into (einit c0) ls in
+      G (delivered (sk es)) ->
+      (exists rest, spec (delivered (sk es)) = events es ++ rest) /\
+      (einrecv es = false -> R (ec es) (returned (sk es)) (length (events es))) /\
+      (exists tail, returned (sk es) ++ parked (sk es) ++ tail = delivered (sk es) /\
+                    (tail <> [] -> lost_exc (sk es) <> None)).
+Proof. exact (@recv_packet_no_loss_proof). Qed.
+Print Assumptions recv_packet_no_loss.
+
+(* closed instance: _DataReceiverImpl x StreamDataConsumer x read_until (AutoSeparated / line serializers), every
+   stream whose frames stay within the limit *)
+Theorem recv_packet_no_loss_read_until :
+  forall (P : Type) (sep : bytes) (limit : nat) (keep_end : bool) (dec : decoder P) (bufsize : nat),
+    sep <> [] -> 0 < bufsize ->
+    forall ls,
+      let F := ru_framer sep limit keep_end dec in
+      let es := erun (copy_smachine F bufsize) false (einit (cinit F)) ls in
+      safe sep limit (delivered (sk es)) ->
+      exists rest, fst (spec_events sep keep_end dec (delivered (sk es))) = events es ++ rest.
+Proof. exact recv_packet_no_loss_read_until_proof. Qed.
+Print Assumptions recv_packet_no_loss_read_until.
+
+(* non-vacuity: a recv_packet cancelled in the iteration of its read event, then the packet comes out *)
+Example endpoint_cancel_example :
+  events (erun (copy_smachine (ru_framer [10%N] 8 false (fun b => Some b)) 4) false
+               (einit (cinit (ru_framer [10%N] 8 false (fun b => Some b))))
+               [ERecvPacket; EEnv (LData [97; 98]%N); EEnv LCancel; EEnv LTurn; EEnv LWake;
+                EEnv (LData [10; 99; 10]%N); ERecvPacket; EEnv LTurn; EEnv LWake])
+  = [RPkt [97; 98]%N].
+Proof. vm_compute. reflexivity. Qed.
 
 (* Blocking half (lowlevel/api_sync/endpoints/stream.py, Conc/BlockRecv.v).  For ANY consumer whose next(None) after a
    StopIteration is a no-op StopIteration, any transport behaviour [evs] and any kind of timeout (TimeoutError from the
